@@ -191,6 +191,13 @@ def run(scn):
             v |= init_byte(wa * nb + b) << (8 * b)
         return v
 
+    from ..agents import StateSampler
+    sigs = [axi.aw.valid, axi.aw.ready, axi.w.valid, axi.w.ready, axi.b.valid, axi.b.ready, axi.ar.valid, axi.ar.ready, axi.r.valid, axi.r.ready,
+            port.cmd.valid, port.cmd.ready, port.cmd.we]
+    fe = tb.dut.frontend if core else dut
+    if d.get("rmw"):
+        sigs.append(fe.write.rmw_fsm.state)
+    samp = StateSampler(sim, sigs)
     axf = ["addr", "burst", "len", "size", "id"]
     aw_d = StreamDriver(sim, axi.aw, aw_items, axf, on_xfer=on_aw)
     w_d = StreamDriver(sim, axi.w, w_items, ["data", "strb", "last"], on_xfer=on_w)
@@ -250,7 +257,7 @@ def run(scn):
     stats["core_variant_runs"] = 1 if core else 0
     return {"violations": viol.v, "stats": stats, "cycles": cyc, "sim_ps": sim.now, "digest": sim.digest(),
             "nontrivial": len(writes) + len(reads) >= 2,
-            "states": ["dw%d rmw%d" % (dw, int(bool(d.get("rmw"))))],
+            "states": samp.states("rmw%d " % int(bool(d.get("rmw")))),
             "summary": {"dw": dw, "writes": len(writes), "reads": len(reads), "cycles": cyc, "rmw": bool(d.get("rmw"))}}
 
 
